@@ -32,6 +32,8 @@ pub struct Sink {
     pub calls: usize,
     pub fail_at: Option<usize>,
     pub perm: bool,
+    /// a sink with a small transmit buffer: `write` accepts at most this many bytes per call (session op `y:<k>`, `y:0` = unlimited)
+    pub limit: usize,
 }
 
 thread_local! {
@@ -43,8 +45,8 @@ impl Sink {
     pub fn new() -> Self {
         let init = INIT_FAULT.with(|f| f.borrow_mut().take());
         match init {
-            Some((k, perm)) => Sink { log: vec![], calls: 0, fail_at: Some(k), perm },
-            None => Sink { log: vec![], calls: 0, fail_at: None, perm: false },
+            Some((k, perm)) => Sink { log: vec![], calls: 0, fail_at: Some(k), perm, limit: 0 },
+            None => Sink { log: vec![], calls: 0, fail_at: None, perm: false, limit: 0 },
         }
     }
     pub fn bytes(&self) -> Vec<u8> {
@@ -92,8 +94,9 @@ impl embedded_io::Write for Sink {
             self.log.push(SinkOp::XW);
             return Err(SinkErr);
         }
-        self.log.push(SinkOp::W(buf.to_vec()));
-        Ok(buf.len())
+        let n = if self.limit > 0 { buf.len().min(self.limit) } else { buf.len() };
+        self.log.push(SinkOp::W(buf[..n].to_vec()));
+        Ok(n)
     }
     fn flush(&mut self) -> Result<(), SinkErr> {
         if self.should_fail() {
@@ -423,6 +426,9 @@ where
                     sink.fail_at = Some(sink.calls + k.parse::<usize>().unwrap());
                     sink.perm = mode == "perm";
                 }
+            }
+            "y" => {
+                cli.verif_writer_mut().limit = arg.parse::<usize>().unwrap();
             }
             _ => panic!("ses op {}", name),
         }
